@@ -282,7 +282,10 @@ impl BitvectorExtended for Bitvector {
             ))
         } else {
             let result = self.clone().into_checked_mul(rhs).unwrap();
-            if result.clone().into_checked_sdiv(self).unwrap() != *rhs {
+            // `-1 * MIN` overflows, but the division check below does not notice it, since `MIN / -1 = MIN`.
+            let is_minus_one_times_min = self.clone().into_bitnot().is_zero()
+                && *rhs == Bitvector::signed_min_value(rhs.width());
+            if is_minus_one_times_min || result.clone().into_checked_sdiv(self).unwrap() != *rhs {
                 Ok((result, true))
             } else {
                 Ok((result, false))
